@@ -17,12 +17,16 @@ Pats == IF PoolKind = "full" THEN FullPats ELSE SmallPats
 PatLists == {<<>>} \cup {<<p>> : p \in Pats} \cup (IF PoolKind = "full" THEN {<<p, q>> : p, q \in SmallPats} ELSE {})
 TagPats == {<<>>, <<P("exact", FALSE, T1)>>, <<P("prefix", FALSE, <<"a", ":">>)>>, <<P("exact", TRUE, T3)>>, <<P("rinf", FALSE, <<"c">>)>>}
 \* "pairs": two filters that every name satisfies, so that their interplay through tags is enumerated completely
-Filters == IF PoolKind = "pairs" THEN [mm : {<<>>}, ex : {<<>>}, mt : TagPats, dt : TagPats, dm : BOOLEAN, dh : BOOLEAN]
+\* "chain": filters that every name satisfies as far as match-metrics goes, with or without an exclude list that the names hit or miss:
+\* what an excluded filter does to the filters after it is enumerated completely
+ExPats == {<<>>, <<P("prefix", FALSE, <<"a">>)>>, <<P("exact", FALSE, <<"b", "a">>)>>}
+Filters == IF PoolKind = "chain" THEN [mm : {<<>>}, ex : ExPats, mt : {<<>>}, dt : TagPats, dm : BOOLEAN, dh : BOOLEAN]
+           ELSE IF PoolKind = "pairs" THEN [mm : {<<>>}, ex : {<<>>}, mt : TagPats, dt : TagPats, dm : BOOLEAN, dh : BOOLEAN]
            ELSE [mm : PatLists, ex : PatLists, mt : PatLists, dt : PatLists, dm : BOOLEAN, dh : BOOLEAN]
 
-Names == IF PoolKind = "pairs" THEN {<<"a", "b">>} ELSE {<<"a", "b">>, <<"a", "b", "c">>, <<"b", "a">>}
+Names == IF PoolKind = "pairs" THEN {<<"a", "b">>} ELSE IF PoolKind = "chain" THEN {<<"a", "b">>, <<"b", "a">>} ELSE {<<"a", "b">>, <<"a", "b", "c">>, <<"b", "a">>}
 TagLists == {<<>>, <<T1>>, <<T3>>, <<T1, T2>>, <<T2, T1, T2>>, <<T1, T3, T4>>, <<T3, T3>>, <<T4, T2, T3, T1>>}
-Statics == IF PoolKind = "pairs" THEN {<<>>, <<T1, T4>>} ELSE {<<>>, <<T1>>, <<T4, T3>>, <<T2, T2, T1>>}
+Statics == IF PoolKind \in {"pairs", "chain"} THEN {<<>>, <<T1, T4>>} ELSE {<<>>, <<T1>>, <<T4, T3>>, <<T2, T2, T1>>}
 Metrics == [name : Names, tags : TagLists]
 
 VARIABLES fs, static, m
@@ -34,7 +38,7 @@ RandomFilter(k) == [mm |-> RandomElement(PatLists), ex |-> RandomElement(PatList
                  dt |-> RandomElement(PatLists), dm |-> RandomElement({TRUE, FALSE, FALSE}), dh |-> RandomElement(BOOLEAN)]
 \* exhaustive over the small pool; the full pool (8M filters) is sampled with TLC's RandomElement under -simulate
 Next == /\ Len(fs) < MaxFilters
-        /\ IF PoolKind \in {"small", "pairs"} THEN \E f \in Filters : fs' = Append(fs, f) ELSE fs' = Append(fs, RandomFilter(Len(fs)))
+        /\ IF PoolKind \in {"small", "pairs", "chain"} THEN \E f \in Filters : fs' = Append(fs, f) ELSE fs' = Append(fs, RandomFilter(Len(fs)))
         /\ UNCHANGED <<static, m>>
 Spec == Init /\ [][Next]_vars
 
